@@ -34,7 +34,7 @@ var (
 			"already present added; non-trivial = an injectable message with at least one request header; distinct = SHA-256 of the case")
 )
 
-func TestMain(m *testing.M) { vh.Main(m, recD, recI) }
+func TestMain(m *testing.M) { vh.Main(m, recD, recI, recC) }
 
 type Msg struct {
 	Binary bool   `json:"binary,omitempty"`
